@@ -726,7 +726,7 @@ def model_line(t):
         if t.z is None or len(t.us) != 1 or not t.gqueries:
             return None
         if not (np.all(np.isfinite(t.grad)) and np.all(np.isfinite(t.gqueries[0][1]))):
-            return None
+            return "skip"        # the model takes finite gradients only (stated assumption); the oracle still judges the transition
         return (f"mala {k} {qv(t.x)} {xs(t.logd)} {qv(t.grad)} {q(t.scale[0])} {q(t.sigma)} {qv(t.z)} "
                 f"{xs(math.log(t.us[0]) if t.us[0] > 0 else -math.inf)} {xs(t.queries[0][1])} {qv(t.gqueries[0][1])}")
     if k in ("expCWMH", "legCWMH"):
@@ -1127,6 +1127,8 @@ def run(ctx):
                 x0 = np.rint(x0).astype(int)
                 if k == "expCWMH":
                     sc.cls = "int-x0"       # work vectors inherit the integer dtype (listed finding)
+                    if sc2 is not None:
+                        sc2.cls = "int-x0"
             elif x0kind == "f32":
                 x0 = x0.astype(np.float32)
             elif x0kind == "list" and k != "expPCN":      # experimental PCN refuses a list (float * list raises TypeError)
@@ -1147,6 +1149,32 @@ def run(ctx):
             for m, c in hook.modes.items():
                 stats["u-" + m] = stats.get("u-" + m, 0) + c
 
+    # dtype / container of the starting point, every kernel, both sampling entry points, well-accepting targets
+    for ki, k in enumerate(KERNELS):
+        rs = np.random.RandomState(5000 * ctx.seed + 31 * ki + 7)
+        for kind in ("int", "f32", "list"):
+            for hist in (("fresh", "warmup") if k.startswith("exp") else ("plain", "adapt")):
+                if kind == "list" and k == "expPCN":
+                    continue
+                sc = make_scenario(rs, k, 2000 + len(records), flat=True)
+                base = rs.randint(-3, 4, size=sc.dim)
+                x0 = base.astype(int) if kind == "int" else (base.astype(np.float32) + np.float32(0.5) if kind == "f32" else [float(v) + 0.5 for v in base])
+                if kind == "int" and k == "expCWMH":
+                    sc.cls = "int-x0"
+                scale = 0.5 if not k.endswith("MALA") else 0.25
+                script = Script(ctx.seed * 7919 + 9000 + ki * 31 + len(records))
+                hook = UHook(np.random.RandomState(ctx.seed * 104729 + 9000 + ki))
+                script.u_hook = hook
+                stats["x0-" + kind] = stats.get("x0-" + kind, 0) + 1
+                try:
+                    if k.startswith("exp"):
+                        run_exp(cuqi, k, sc, hist, nsteps, scale, x0, script, hook, records)
+                    else:
+                        run_leg(cuqi, k, sc, hist, nsteps if hist == "plain" else 22, scale, x0, script, hook, records)
+                except Exception as e:
+                    ctx.note(f"dtype scenario raised: {k} {kind} {hist}: {repr(e)[:160]}")
+                    stats["raised"] = stats.get("raised", 0) + 1
+
     # model side
     from harness.core import KnownMap
     open_known = KnownMap([r_ for r_ in ctx.known if r_.get("status", "open") == "open"])
@@ -1162,6 +1190,10 @@ def run(ctx):
     for r in records:
         if r[0] == "T":
             ln = model_line(r[1])
+            if ln == "skip":
+                stats["non-finite-gradient-not-replayed"] = stats.get("non-finite-gradient-not-replayed", 0) + 1
+                note_fails(r[1], oracle(ctx, r[1], stats))
+                continue
             if ln is None:
                 stats["not-replayable"] = stats.get("not-replayable", 0) + 1
                 fails = oracle(ctx, r[1], stats)
